@@ -177,7 +177,7 @@ impl<'w> FnTr<'w> {
                             out.extend(self.tr_return(e, r)?);
                             return Ok(out);
                         }
-                        Expr::If(_) | Expr::Match(_) | Expr::Block(_) | Expr::While(_) | Expr::ForLoop(_) => {
+                        Expr::If(_) | Expr::Match(_) | Expr::Block(_) | Expr::Unsafe(_) | Expr::While(_) | Expr::ForLoop(_) => {
                             if self.tr_ctl_stmt(e, rest, k, &mut out)? { return Ok(out); }
                         }
                         Expr::Assign(a) => self.tr_assign(e, &a.left, None, &a.right, &mut out)?,
@@ -274,14 +274,14 @@ impl<'w> FnTr<'w> {
     /// last expression of a block (its value)
     fn tr_tail(&mut self, e: &Expr, k: &Kont) -> Res<Vec<String>> {
         match e {
-            Expr::If(_) | Expr::Match(_) | Expr::Block(_) if matches!(k, Kont::Return | Kont::Value(_)) => {
+            Expr::If(_) | Expr::Match(_) | Expr::Block(_) | Expr::Unsafe(_) if matches!(k, Kont::Return | Kont::Value(_)) => {
                 let branches = self.branches_of(e)?;
                 let (pre, branches) = branches;
                 let mut out = pre;
                 out.extend(self.emit_chain(&branches, 0, k, e)?);
                 Ok(out)
             }
-            Expr::If(_) | Expr::Match(_) | Expr::Block(_) | Expr::While(_) | Expr::ForLoop(_) => {
+            Expr::If(_) | Expr::Match(_) | Expr::Block(_) | Expr::Unsafe(_) | Expr::While(_) | Expr::ForLoop(_) => {
                 let mut out = vec![];
                 if !self.tr_ctl_stmt(e, &[], k, &mut out)? { out.extend(self.finish(None, k)?); }
                 Ok(out)
@@ -409,7 +409,7 @@ impl<'w> FnTr<'w> {
         }
         if contains_return_expr(e) { return Err(self.err(e, "`return`/`?` inside a `let` initialiser")); }
         match e {
-            Expr::If(_) | Expr::Match(_) | Expr::Block(_) => {
+            Expr::If(_) | Expr::Match(_) | Expr::Block(_) | Expr::Unsafe(_) => {
                 let (lines, ty) = self.tr_ctl_value(e, ann.as_ref())?;
                 if let Some(a) = &ann { if *a != ty { return Err(self.err(l, "annotation does not match")); } }
                 let v = self.declare(l, &name, ty, mutable, None)?;
@@ -589,6 +589,8 @@ impl<'w> FnTr<'w> {
                 if b.label.is_some() { return Err(self.err(e, "labelled block")); }
                 Ok((vec![], vec![Branch { cond: None, body: Body::Block(&b.block), binds: vec![] }]))
             }
+            // `unsafe { .. }` is an ordinary block (every operation inside must still be in the mapping table)
+            Expr::Unsafe(u) => Ok((vec![], vec![Branch { cond: None, body: Body::Block(&u.block), binds: vec![] }])),
             Expr::If(_) => {
                 let mut out = vec![];
                 let mut cur = e;
